@@ -11,5 +11,6 @@ CONSTANTS
   MaxEx = 9
   ProbeNs <- NoProbes
   ProbeUids <- UidsOwn
+  MaxOld = 0
 VIEW view
 INVARIANTS ReqFits
